@@ -10,6 +10,18 @@ def replay(rec):
     from oneliner.config import Configs
 
     out = []
+    if rec.get("divergence") == "temporaries-collide":
+        # C09: a temporary of the output was not named during this conversion, or two share a suffix
+        from .families import c09 as fam
+
+        for cfg in rec["configs"]:
+            u, w, i = cfg.split("/")
+            c = Configs()
+            c.unparser, c.expr_wrapper, c.if_style = u, w, i
+            foreign, made, text = fam.suffix_provenance(ol, rec["src"], c)
+            bad = bool(foreign) or not fam.temporaries_distinct(text)
+            out.append((cfg, "temporaries-collide" if bad else None))
+        return {"reproduced": any(d for _, d in out), "divergence": "temporaries-collide", "per_config": out}
     for cfg in rec["configs"]:
         u, w, i = cfg.split("/")
         c = Configs()
